@@ -42,6 +42,9 @@ type Conn struct {
 	rdl, wdl   time.Time // read / write deadline on the virtual clock (zero: none)
 	NDeadlines int       // number of Set*Deadline calls
 	RerrOnce bool // the pending read error is reported by one Read only (a transient condition such as an expired read deadline)
+	// ClosedReadErr: what a Read returns after the local end was closed (default ErrClosed). Real
+	// transports differ: net.ErrClosed for sockets, io.ErrClosedPipe for net.Pipe and io.Pipe-backed ones
+	ClosedReadErr error
 	ClosedAt time.Duration // virtual time of the first Close
 	CloseBy  string
 }
@@ -85,6 +88,9 @@ func (c *Conn) Read(p []byte) (int, error) {
 	}
 	vs.BlockObj("net.read:"+c.Name, c, func() bool { return len(c.in) > 0 || c.eof || c.rerr != nil || c.Closed || expired(c.rdl) })
 	if c.Closed {
+		if c.ClosedReadErr != nil {
+			return 0, c.ClosedReadErr
+		}
 		return 0, ErrClosed
 	}
 	if expired(c.rdl) {
